@@ -114,13 +114,13 @@ class ExactObserver(object):
             self.fails.append((where, -n, problems))
 
 
-def run_program(body, kind, ctx, make_observer, case_extra=None, src_withs=None):
+def run_program(body, kind, ctx, make_observer, case_extra=None, src_withs=None, ns=None):
     """Render+compile+explore one program; report violations through ctx. Returns (npaths, nobs)."""
     if src_withs is None:
         src, withs = ps.render(body, kind)
     else:
         src, withs = src_withs
-    fn = ps.compile_prog(src)
+    fn = ps.compile_prog(src, ns=ns)
     total = [0, 0]
     stack = [()]
     seen = set()
@@ -154,9 +154,9 @@ def sig_of(problems):
     return "+".join(kinds)
 
 
-def replay_case(case, make_observer):
+def replay_case(case, make_observer, ns=None):
     withs = dict((w[0], (w[1], w[2], w[3])) for w in case["withs"])
-    fn = ps.compile_prog(case["src"])
+    fn = ps.compile_prog(case["src"], ns=ns)
     obs = make_observer(withs)
     ps.drive(fn, case["kind"], tuple(case["prefix"]), obs)
     out = []
